@@ -90,6 +90,14 @@ func AtomicPt() struct{} {
 	return struct{}{}
 }
 
+// MemPt is the scheduling point the instrumenter puts behind a store to memory that other goroutines may reach
+// (packages and files named by -mempts). Declined at the lock-yield rate.
+func MemPt() {
+	if t := Cur(); t != nil {
+		t.lockYield()
+	}
+}
+
 // Pre returns v; its first argument is evaluated before v (Go evaluates call arguments left to right).
 func Pre[T any](_ struct{}, v T) T { return v }
 
